@@ -21,7 +21,7 @@ LEAN = VERIF / "lean"
 EVIDENCE = VERIF / "evidence"
 REPLAYS = EVIDENCE / "replays"
 CORPUS = VERIF / "corpus"
-KNOWN = VERIF / "known_findings.json"
+KNOWN = VERIF / "known_findings"  # directory: one JSON list per property (committed, never written at run time)
 
 TRUSTED_BASE = [
     "Lean 4.33.0 kernel (leanchecker re-check in the thorough tier)",
@@ -113,9 +113,11 @@ class Ctx:
 
 
 def load_known() -> List[Dict[str, Any]]:
-    if not KNOWN.exists():
-        return []
-    return json.loads(KNOWN.read_text())
+    out: List[Dict[str, Any]] = []
+    if KNOWN.is_dir():
+        for f in sorted(KNOWN.glob("*.json")):
+            out += json.loads(f.read_text())
+    return out
 
 
 def split_known(prop: str, violations: List[Violation]):
